@@ -524,3 +524,178 @@ func c11CtorCall(info *types.Info, decls map[*types.Func]*ast.FuncDecl, e ast.Ex
 	})
 	return n > 0 && n == good
 }
+
+// c11GenTypes resolves the types that make up a router generation by role: the instance
+// type, the struct types of the package reachable from it through fields (pointers, slices,
+// arrays, maps) all of whose fields are unexported (muxRule, MuxPath today — the spec types
+// with exported yaml fields are configuration, not generation state), and the small result
+// type pairing a status with a path of the generation (route today: by name, else by shape).
+func c11GenTypes(r *c11Router) []*types.Named {
+	pkg := r.pkg.Types
+	out := []*types.Named{r.miT}
+	seen := map[*types.Named]bool{r.miT: true}
+	allUnexported := func(st *types.Struct) bool {
+		if st.NumFields() == 0 {
+			return false
+		}
+		for i := 0; i < st.NumFields(); i++ {
+			if st.Field(i).Exported() {
+				return false
+			}
+		}
+		return true
+	}
+	var walk func(t types.Type, depth int)
+	walk = func(t types.Type, depth int) {
+		if depth > 8 {
+			return
+		}
+		switch x := types.Unalias(t).(type) {
+		case *types.Pointer:
+			walk(x.Elem(), depth+1)
+		case *types.Slice:
+			walk(x.Elem(), depth+1)
+		case *types.Array:
+			walk(x.Elem(), depth+1)
+		case *types.Map:
+			walk(x.Key(), depth+1)
+			walk(x.Elem(), depth+1)
+		case *types.Named:
+			if x.Obj().Pkg() != pkg {
+				return
+			}
+			st, ok := x.Underlying().(*types.Struct)
+			if !ok {
+				return
+			}
+			if x != r.miT {
+				if seen[x] || !allUnexported(st) || x == r.muxT {
+					return
+				}
+				seen[x] = true
+				out = append(out, x)
+			}
+			for i := 0; i < st.NumFields(); i++ {
+				walk(st.Field(i).Type(), depth+1)
+			}
+		}
+	}
+	walk(r.miT, 0)
+	// the per-request result type
+	isGenPtr := func(t types.Type) bool {
+		p, ok := t.(*types.Pointer)
+		if !ok {
+			return false
+		}
+		n, ok := types.Unalias(p.Elem()).(*types.Named)
+		return ok && seen[n] && n != r.miT
+	}
+	var byName, byShape []*types.Named
+	for _, name := range pkg.Scope().Names() {
+		tn, ok := pkg.Scope().Lookup(name).(*types.TypeName)
+		if !ok || tn.IsAlias() {
+			continue
+		}
+		n, ok := tn.Type().(*types.Named)
+		if !ok || seen[n] {
+			continue
+		}
+		st, ok := n.Underlying().(*types.Struct)
+		if !ok || !allUnexported(st) {
+			continue
+		}
+		if name == "route" {
+			byName = append(byName, n)
+		}
+		if st.NumFields() == 2 {
+			ints, ptrs := 0, 0
+			for i := 0; i < 2; i++ {
+				if b, ok := st.Field(i).Type().Underlying().(*types.Basic); ok && b.Info()&types.IsInteger != 0 {
+					ints++
+				}
+				if isGenPtr(st.Field(i).Type()) {
+					ptrs++
+				}
+			}
+			if ints == 1 && ptrs == 1 {
+				byShape = append(byShape, n)
+			}
+		}
+	}
+	switch {
+	case len(byName) == 1:
+		out = append(out, byName[0])
+	case len(byShape) == 1:
+		out = append(out, byShape[0])
+	}
+	return out
+}
+
+// c11FreshElement: e is an element / field of a container that is a fresh local of body and
+// into which only freshly created objects are stored in body (`paths[j]` with
+// `paths := make(...)`, `paths[j] = newMuxPath(...)`), or a range variable over such a
+// container. Returns the container's root identifier.
+func c11FreshElement(info *types.Info, decls map[*types.Func]*ast.FuncDecl, body *ast.BlockStmt, e ast.Expr) *ast.Ident {
+	e = ast.Unparen(e)
+	var root *ast.Ident
+	if id, ok := e.(*ast.Ident); ok {
+		// range value variable over a fresh container
+		obj := info.Uses[id]
+		ast.Inspect(body, func(x ast.Node) bool {
+			if rs, ok := x.(*ast.RangeStmt); ok {
+				if v, ok := rs.Value.(*ast.Ident); ok && info.Defs[v] == obj && obj != nil {
+					if cid, ok := ast.Unparen(rs.X).(*ast.Ident); ok {
+						root = cid
+					}
+				}
+			}
+			return true
+		})
+	} else {
+		hop := false
+		for {
+			switch x := e.(type) {
+			case *ast.IndexExpr:
+				e, hop = ast.Unparen(x.X), true
+				continue
+			case *ast.Ident:
+				if hop {
+					root = x
+				}
+			}
+			break
+		}
+	}
+	if root == nil {
+		return nil
+	}
+	cobj := info.Uses[root]
+	if !c11FreshLocalD(info, decls, body, cobj, 0) {
+		return nil
+	}
+	// every element stored into the container is itself freshly created
+	ok := true
+	ast.Inspect(body, func(x ast.Node) bool {
+		as, isAs := x.(*ast.AssignStmt)
+		if !isAs {
+			return true
+		}
+		for i, l := range as.Lhs {
+			ix, isIx := ast.Unparen(l).(*ast.IndexExpr)
+			if !isIx {
+				continue
+			}
+			if id, isID := ast.Unparen(ix.X).(*ast.Ident); !isID || info.Uses[id] != cobj {
+				continue
+			}
+			if len(as.Rhs) != len(as.Lhs) || !c11IsFreshExprD(info, decls, as.Rhs[i], 0) {
+				ok = false
+			}
+		}
+		return true
+	})
+	if !ok {
+		return nil
+	}
+	return root
+}
